@@ -70,3 +70,15 @@ Theorem c09_unknown_face_dropped : forall s now ch,
      r_st (step s (EData now d) ch) = s /\ r_outs (step s (EData now d) ch) = []).
 Proof. exact unknown_face_dropped. Qed.
 Print Assumptions c09_unknown_face_dropped.
+
+(* "/localhost exchanges between local applications and the forwarder itself always work": a /localhost Interest (from a local
+   face: c09_local_ok says it is not dropped for scope) that need not be dropped, is not answered from the cache and not suppressed,
+   and has a usable next hop — for such a name every usable next hop is a local face — is forwarded to a local face. *)
+From Fw Require Import C02 C09b.
+Theorem c09_local_exchange_forwarded : forall s now i ch,
+  spec_localhost (i_name i) = true ->
+  c02_must_drop s i = false -> c02_cached s now i = false -> c02_suppressed s now i = false -> usable_cands s i <> [] ->
+  exists o g, In o (r_outs (step s (EInterest now i) ch)) /\ o_kind o = KInterest /\ o_name o = i_name i /\
+              get_face (faces s) (o_face o) = Some g /\ f_local g = true.
+Proof. exact local_exchange_forwarded. Qed.
+Print Assumptions c09_local_exchange_forwarded.
